@@ -601,7 +601,7 @@ func (r *Run) Do(name string, fn func()) {
 
 	idle := 0
 
-	for i := 0; i < 2000000; i++ {
+	for i := 0; i < 400000000; i++ {
 		synctest.Wait()
 
 		if r.Failed() {
